@@ -102,6 +102,9 @@ def make_cfg(rng, i):
             X = X + rng.standard_normal(p) * 2.0       # a mean state that is NOT removed: the model works on the data as given
         cfg = dict(kind="rednoise", n=n, p=p, q=q, use_pca=use_pca, n_pca_modes=q, center=center,
                    standardize=bool(rng.random() < 0.35), use_coslat=False, pairs=[], reals=[])
+    # fields in small or large physical units (the feedback matrix is dimensionless: its eigen-pairs do not depend on the units)
+    cfg["units"] = float(10.0 ** rng.integers(-8, 7)) if rng.random() < 0.35 else 1.0
+    X = X * cfg["units"]
     cfg["history"] = int(rng.integers(1, 1 << 30)) if rng.random() < 0.3 else 0
     cfg["layout"] = "x"
     if p % 2 == 0 and p >= 4 and rng.random() < 0.4:
